@@ -51,3 +51,5 @@ def run(ctx) -> None:
                   f"first observer is {first.cls.name if isinstance(first, Obj) else first!r}",
                   "RemoveEmptyInstructions is the first instruction observer of every operation")
     shapes.parser_total_rule(ctx, I, "C08.K5.parser-total-on-printed-operand-forms")
+    from ._matchrules import observer_chain_rules
+    observer_chain_rules(ctx, "C08.K6.empty-pseudo-instruction-never-reaches-the-stream", "C08.K6.every-other-instruction-reaches-the-stream")
